@@ -277,7 +277,11 @@ func (svc *service) stop() {
 
 	svc.conn = nil
 	svc.in = nil
+
+	// writeMessage may be running in another connection's goroutine
+	svc.wmu.Lock()
 	svc.out = nil
+	svc.wmu.Unlock()
 }
 
 func (svc *service) publish(msg *message.PublishMessage, onComplete OnCompleteFunc) error {
